@@ -103,7 +103,10 @@ struct Limits {            // nm, VOTCA units: what fits the format's field
   int name_w, res_w;
 };
 static Limits limits(const std::string &f) {
-  if (f == "gro") return {9000, -900, 900, -90, 0, 900, 7, 7};
+  // gro: fixed columns for the atoms; the box line is "free format, space
+  // separated reals" -> every %10.5f value must leave a blank (|v| < 1000,
+  // off-diagonals > -100, i.e. edges < 200)
+  if (f == "gro") return {9000, -900, 900, -90, 0, 190, 7, 7};
   if (f == "xyz") return {90, -9.5, 0, 0, 0, 50, 5, 5};
   if (f == "pdb") return {900, -90, 0, 0, 0, 900, 6, 5};
   return {1e4, -1e4, 1e3, -1e3, 1e5, 900, 8, 8};  // dump, dlpoly: free format
@@ -193,7 +196,12 @@ static CaseD gen_case(vfh::Rng &r, const std::string &fmt, int maxbeads, int max
   // MD time step: usually a short decimal; sometimes a value with >= 9
   // significant digits (sub-family "unrounded-dt", matters for DL_POLY HISTORY)
   static const double nice[] = {0.001, 0.002, 0.0005, 0.004, 0.01, 0.02, 0.005, 1.0};
-  bool awkward = minimal < 0 && r.coin(0.25);
+  if (fmt == "xyz" && minimal < 0 && r.coin(0.15)) {
+    // %10.5f fields that use their full width: x <= -100 A or >= 1000 A
+    c.tag = "wide-coordinates";
+    L.pos_hi = 900; L.pos_lo = -99;
+  }
+  bool awkward = fmt != "xyz" && minimal < 0 && r.coin(0.25);
   double dt = awkward ? r.logu(1e-3, 1.0) : nice[r.range(0, 7)];
   if (awkward) c.tag = "unrounded-dt";
   c.dt = dt;
@@ -213,6 +221,7 @@ static CaseD gen_case(vfh::Rng &r, const std::string &fmt, int maxbeads, int max
                          cl(vs * r.normal(), L.vel_hi, L.vel_lo)));
       F.frc.push_back(V3(fs * r.normal(), fs * r.normal(), fs * r.normal()));
     }
+    if (c.tag == "wide-coordinates") F.pos[0] = V3(-r.uni(10.5, 99), r.uni(0, 5), -r.uni(10.5, 99));
     c.fr.push_back(F);
   }
   return c;
@@ -384,20 +393,23 @@ static Cmp cmp_vecs(const std::vector<V3> &got, const std::vector<V3> &exp, doub
       if (std::fabs(e) > 1e4 * t && std::isfinite(g)) ratios.push_back(g / e);
     }
   if (c.bad()) {
-    if (ratios.empty())
-      for (size_t i = 0; i < exp.size() && i < got.size(); ++i)
-        for (int k = 0; k < 3; ++k)
-          if (std::fabs(exp[i][k]) > 20 * tol1(exp[i][k], abs_half, sig, scale) && std::isfinite(got[i][k])) ratios.push_back(got[i][k] / exp[i][k]);
-    if (!ratios.empty()) {
-      std::sort(ratios.begin(), ratios.end());
-      double med = ratios[ratios.size() / 2];
-      bool uniform = std::fabs(med - 1) > 1e-5;
+    // a constant factor? least-squares estimate got = f * expected, then every
+    // component must agree with f * expected within the printed resolution
+    (void)ratios;
+    double sge = 0, see = 0;
+    for (size_t i = 0; i < exp.size() && i < got.size(); ++i)
+      for (int k = 0; k < 3; ++k)
+        if (std::isfinite(got[i][k])) { sge += got[i][k] * exp[i][k]; see += exp[i][k] * exp[i][k]; }
+    if (see > 0) {
+      double f = sge / see;
+      bool uniform = std::fabs(f - 1) > 1e-5 && std::fabs(f) > 1e-12;
       for (size_t i = 0; uniform && i < exp.size() && i < got.size(); ++i)
         for (int k = 0; k < 3; ++k) {
-          double e = exp[i][k], t = tol1(e, abs_half, sig, scale) * std::max(1.0, std::fabs(med));
-          if (!(std::fabs(got[i][k] - med * e) <= 2 * t + 2e-3 * std::fabs(med * e))) uniform = false;
+          double e = exp[i][k], t = tol1(e, abs_half, sig, scale) * std::max(1.0, std::fabs(f));
+          if (!(std::fabs(got[i][k] - f * e) <= 2 * t + 1e-4 * std::fabs(f * e))) uniform = false;
         }
-      if (uniform) { c.units = true; c.factor = med; }
+      // the factor must also explain the mismatch (not just fit noise)
+      if (uniform && std::fabs(f - 1) * std::fabs(c.wexp) > 0.5 * c.wtol) { c.units = true; c.factor = f; }
     }
   }
   return c;
@@ -410,7 +422,11 @@ static void add_cmp(J &w, const Cmp &c, const char *what) {
 // ---------------------------------------------------- independent parsers
 // (file-level view for the two formats whose own reader rejects the writer's
 // output: what did the writer actually put into the file?)
-struct FileFrame { std::vector<std::string> names, resnames; std::vector<V3> pos; bool cryst1 = false; };
+struct FileFrame { std::vector<std::string> names, resnames; std::vector<V3> pos; bool cryst1 = false; int malformed = 0; std::string badline; };
+static std::string trim(std::string s) {
+  size_t a = s.find_first_not_of(' '), b = s.find_last_not_of(' ');
+  return a == std::string::npos ? "" : s.substr(a, b - a + 1);
+}
 static std::vector<FileFrame> parse_xyz(const std::string &file) {
   std::vector<FileFrame> out;
   std::ifstream in(file);
@@ -422,19 +438,32 @@ static std::vector<FileFrame> parse_xyz(const std::string &file) {
     FileFrame F;
     std::getline(in, line);  // comment line
     while ((long)F.pos.size() < n && std::getline(in, line)) {
-      std::istringstream as(line);
-      std::string nm; double x, y, z;
-      if (!(as >> nm >> x >> y >> z)) continue;  // tolerate blank lines
+      // strict: exactly four white-space separated tokens, three of them numbers
+      std::vector<std::string> tk;
+      { std::istringstream as(line); std::string t; while (as >> t) tk.push_back(t); }
+      std::string nm; double x = 0, y = 0, z = 0;
+      bool good = tk.size() == 4;
+      if (good) {
+        nm = tk[0];
+        double *dst[3] = {&x, &y, &z};
+        for (int k = 0; k < 3; ++k) { char *e = nullptr; *dst[k] = strtod(tk[k + 1].c_str(), &e); if (!e || *e) good = false; }
+      }
+      if (!good) {  // tolerate blank lines
+        if (line.find_first_not_of(" \t") != std::string::npos) {  // fields run together: recover by the %10.5f columns
+          ++F.malformed; F.badline = line;
+          if (line.size() >= 33) {
+            F.names.push_back(trim(line.substr(0, line.size() - 30)));
+            F.pos.push_back(V3(atof(line.substr(line.size() - 30, 10).c_str()), atof(line.substr(line.size() - 20, 10).c_str()), atof(line.substr(line.size() - 10, 10).c_str())) * 0.1);
+          }
+        }
+        continue;
+      }
       F.names.push_back(nm);
       F.pos.push_back(V3(x, y, z) * 0.1);  // xyz is in Angstrom by definition
     }
     out.push_back(F);
   }
   return out;
-}
-static std::string trim(std::string s) {
-  size_t a = s.find_first_not_of(' '), b = s.find_last_not_of(' ');
-  return a == std::string::npos ? "" : s.substr(a, b - a + 1);
 }
 static std::vector<FileFrame> parse_pdb(const std::string &file) {
   std::vector<FileFrame> out;
@@ -528,6 +557,11 @@ static void judge_frames(const CaseD &c, const std::string &fmt, const std::vect
           if (i == j) worstd = std::max(worstd, d); else worsto = std::max(worsto, d);
         }
       J w = W(); w.i("frame", (long long)f).vec("box_read_rowmajor", flat(G.box)).vec("box_written_rowmajor", flat(E.box));
+      bool lost = G.box.isZero(0) && !E.box.isZero(0);
+      if (lost) {  // nothing came back at all
+        judge(fmt, "box-diagonal", false, fmt + "/box-missing", "the box is not stored / not read: it comes back as zero", w);
+        continue;
+      }
       judge(fmt, "box-diagonal", worstd <= 1, fmt + "/box-diagonal", "box diagonal differs after the round trip", w);
       if (c.boxkind == 2) {
         std::string key = fmt + "/box-offdiagonal", what = "off-diagonal box elements differ after the round trip";
@@ -647,9 +681,15 @@ static void roundtrip(const CaseD &c, const std::string &file, const std::string
     reread = false;
     msg = e.what();
   }
-  std::string rkey = fmt + "/reread-rejected" + ((fmt == "dlpoly" && !config && !c.tag.empty()) ? "-" + c.tag : "");
+  std::string rkey = fmt + "/reread-rejected" + ((((fmt == "dlpoly" && !config) || fmt == "xyz") && !c.tag.empty()) ? "-" + c.tag : "");
   judge(fmt, "reread", reread, rkey, "the matching reader throws on the file its own writer produced",
         case_json(c, 1).s("exception", msg).s("file_head", slurp(file, 1500)));
+  if (fmt == "xyz") {
+    int mal = 0; std::string bl;
+    for (auto &F : parse_xyz(file)) { mal += F.malformed; if (F.malformed) bl = F.badline; }
+    judge(fmt, "field-separation", mal == 0, "xyz/fields-run-together", "the written xyz file has atom lines whose %10.5f fields are not separated by white space (x <= -100 A or >= 1000 A)",
+          case_json(c, 1).i("malformed_lines", mal).s("example_line", bl));
+  }
   if (reread) {
     judge_frames(c, fmt, got, file, config, "reader");
   } else if (fmt == "xyz" || fmt == "pdb") {
@@ -1049,7 +1089,11 @@ static void imc_matrix_case(vfh::Rng &r, const std::string &file) {
   int cls = (int)r.range(0, 9);
   int rows = (int)r.range(1, 12), cols = cls < 4 ? rows : (int)r.range(1, 12);
   if (cls == 9) { rows = (int)r.range(20, 60); cols = (int)r.range(20, 60); }
-  if (g_minimal) { rows = (int)r.range(2, 3); cols = (int)r.range(2, 3); }
+  static int nmin = 0;
+  if (g_minimal) {  // square ones first: a writer that indexes (j,i) aborts on the first non-square matrix
+    rows = (int)r.range(2, 3);
+    cols = ++nmin <= 6 ? rows : (int)r.range(2, 3);
+  }
   bool sym = (rows == cols) && r.coin(0.25);
   Eigen::MatrixXd A(rows, cols);
   for (int i = 0; i < rows; ++i) for (int j = 0; j < cols; ++j) A(i, j) = rval(r);
